@@ -137,10 +137,9 @@ public:
         bool is_new_monomial;
         monomials_map_t::iterator it;
         boost::tie(it,is_new_monomial) = monomials.insert(std::make_pair(monomial_t(0),alpha));
-        if(!is_new_monomial){
+        if(!is_new_monomial)
             it->second += alpha;
-            erase_zero_monomial(monomials,it);
-        }
+        erase_zero_monomial(monomials,it);
         return *this;
     }
     
@@ -149,10 +148,9 @@ public:
         bool is_new_monomial;
         monomials_map_t::iterator it;
         boost::tie(it,is_new_monomial) = monomials.insert(std::make_pair(monomial_t(0),-alpha));
-        if(!is_new_monomial){
+        if(!is_new_monomial)
             it->second -= alpha;
-            erase_zero_monomial(monomials,it);
-        }
+        erase_zero_monomial(monomials,it);
         return *this;
     }
     
